@@ -376,6 +376,13 @@ impl Sub for Rejections {
                         }
                         v
                     });
+                // out of range but summing to exactly one: only the range test can reject these
+                let out_of_range = (0usize..k, 1usize..k, prop_oneof![Just(1.5f32), Just(2.0f32), Just(1.25f32)]).prop_map(move |(a, d, hi)| {
+                    let mut v = vec![Fl(0.0); k];
+                    v[a] = Fl(hi);
+                    v[(a + d) % k] = Fl(1.0 - hi);
+                    v
+                });
                 let counts = proptest::collection::vec(prop_oneof![3 => Just(0u32), 1 => 0u32..50], k);
                 let rows = proptest::collection::vec(
                     (proptest::collection::vec(1u32..100, k), prop_oneof![3 => Just(0.0f32), 1 => Just(0.004f32), 1 => Just(-0.004f32), 1 => Just(0.03f32), 1 => Just(-0.03f32), 1 => Just(0.5f32)]).prop_map(
@@ -393,6 +400,7 @@ impl Sub for Rejections {
                     prop_oneof![
                         2 => valid_bg.prop_map(Reject::Background),
                         3 => broken_bg.prop_map(Reject::Background),
+                        2 => out_of_range.prop_map(Reject::Background),
                         2 => counts.prop_map(Reject::BackgroundCounts),
                         4 => rows.prop_map(Reject::Frequencies),
                     ],
